@@ -1,0 +1,88 @@
+//go:build verif
+
+// Contracts for the govc verifier (/verif). This file contains comments only; it is compiled
+// only under the build tag "verif" and contributes no declarations.
+package core
+
+// ---------------------------------------------------------------------------------------------
+// Group chain (C19). The store holds: gcurrent -> id of the last group, gcount -> enc(count),
+// heightKey(i) -> id of the i-th group, id -> json(group). gids is the (arbitrary, fixed) sequence of
+// ids of the chain the contracts talk about. Key-space partition (assumption): group ids are not
+// height keys and not one of the two literal keys; height keys are injective.
+//
+//@ smt (declare-fun heightKey ((_ BitVec 64)) Bytes)
+//@ smt (assert (forall ((a (_ BitVec 64)) (b (_ BitVec 64))) (! (=> (= (heightKey a) (heightKey b)) (= a b)) :pattern ((heightKey a) (heightKey b)))))
+//@ smt (declare-fun isGroupId (Bytes) Bool)
+//@ smt (assert (forall ((h (_ BitVec 64))) (! (not (isGroupId (heightKey h))) :pattern ((heightKey h)))))
+//@ smt (declare-fun decId (Bytes) Bytes)
+//@ smt (declare-fun decPre (Bytes) Bytes)
+//@ smt (declare-fun decHeight (Bytes) (_ BitVec 64))
+//@ smt (declare-fun isGroupJson (Bytes) Bool)
+//@ smt (declare-const gids (Array (_ BitVec 64) Bytes))
+//@ smt (define-fun gcKeys ((cur Bytes) (cnt Bytes)) Bool (and (not (isGroupId cur)) (not (isGroupId cnt)) (not (= cur cnt)) (forall ((h (_ BitVec 64))) (! (and (not (= (heightKey h) cur)) (not (= (heightKey h) cnt))) :pattern ((heightKey h))))))
+//@ smt (define-fun gcHead ((kv (Array Bytes Bytes)) (has (Array Bytes Bool)) (ids (Array (_ BitVec 64) Bytes)) (n (_ BitVec 64)) (cur Bytes) (cnt Bytes)) Bool (and (bvugt n (_ bv0 64)) (bvult n #x4000000000000000) (select has cur) (= (select kv cur) (select ids (bvsub n (_ bv1 64)))) (select has cnt) (= (select kv cnt) (encCount n))))
+//@ smt (define-fun gcIdx ((kv (Array Bytes Bytes)) (has (Array Bytes Bool)) (ids (Array (_ BitVec 64) Bytes)) (n (_ BitVec 64))) Bool (forall ((i (_ BitVec 64))) (! (=> (bvult i n) (and (select has (heightKey i)) (= (select kv (heightKey i)) (select ids i)) (select has (select ids i)) (isGroupId (select ids i)) (isGroupJson (select kv (select ids i))) (= (decId (select kv (select ids i))) (select ids i)) (= (decHeight (select kv (select ids i))) i) (=> (bvugt i (_ bv0 64)) (= (decPre (select kv (select ids i))) (select ids (bvsub i (_ bv1 64))))))) :pattern ((heightKey i)) :pattern ((select ids i)))))
+//@ smt (define-fun gcAbove ((has (Array Bytes Bool)) (n (_ BitVec 64))) Bool (forall ((i (_ BitVec 64))) (! (=> (bvuge i n) (not (select has (heightKey i)))) :pattern ((heightKey i)))))
+//@ smt (define-fun gcDistinct ((ids (Array (_ BitVec 64) Bytes)) (n (_ BitVec 64))) Bool (forall ((i (_ BitVec 64)) (j (_ BitVec 64))) (! (=> (and (bvult i n) (bvult j n) (not (= i j))) (not (= (select ids i) (select ids j)))) :pattern ((select ids i) (select ids j)))))
+//@ smt (define-fun gcWF ((kv (Array Bytes Bytes)) (has (Array Bytes Bool)) (ids (Array (_ BitVec 64) Bytes)) (n (_ BitVec 64)) (cur Bytes) (cnt Bytes)) Bool (and (gcKeys cur cnt) (gcHead kv has ids n cur cnt) (gcIdx kv has ids n) (gcAbove has n) (gcDistinct ids n)))
+
+// json of a group: decoding the encoding gives back id, predecessor and height (trusted: encoding/json).
+//@ func ext_jsonMarshalGroup
+//@   option trusted extern=encoding/json.Marshal argtype=0:*middleware/types.Group
+//@   ensures result1 == nil ==> @isGroupJson(bytes(result0)) && @decId(bytes(result0)) == bytes(arg0.Id) && @decPre(bytes(result0)) == bytes(arg0.Header.PreGroup) && @decHeight(bytes(result0)) == arg0.GroupHeight && fresh(result0)
+//@   modifies nothing
+
+//@ func generateKey
+//@   property C19
+//@   option trusted
+//@   ensures bytes(result) == @heightKey(i) && fresh(result)
+//@   modifies nothing
+
+//@ func groupChain.getGroupById
+//@   property C19
+//@   option trusted
+//@   requires chain != nil
+//@   ensures result != nil ==> result.Header != nil && @select(@select(ghost(kvhas), ref(chain.groups)), bytes(id))
+//@        && bytes(result.Id) == @decId(@select(@select(ghost(kv), ref(chain.groups)), bytes(id)))
+//@        && bytes(result.Header.PreGroup) == @decPre(@select(@select(ghost(kv), ref(chain.groups)), bytes(id)))
+//@        && result.GroupHeight == @decHeight(@select(@select(ghost(kv), ref(chain.groups)), bytes(id)))
+//@   ensures @select(@select(ghost(kvhas), ref(chain.groups)), bytes(id)) && @isGroupJson(@select(@select(ghost(kv), ref(chain.groups)), bytes(id))) ==> result != nil
+//@   ensures !@select(@select(ghost(kvhas), ref(chain.groups)), bytes(id)) ==> result == nil
+//@   modifies nothing
+
+//@ func groupChain.save
+//@   property C19
+//@   # the sqlite group index (mysql.InsertGroup) is assumed to work; its failure panics by design
+//@   option maypanic
+//@   requires chain != nil && group != nil && group.Header != nil && typeid(chain.groups) != 0 && chain.count < 4611686018427387903
+//@   requires [wf] @gcWF(@select(ghost(kv), ref(chain.groups)), @select(ghost(kvhas), ref(chain.groups)), @gids, chain.count, bytes("gcurrent"), bytes("gcount"))
+//@   requires [new] @isGroupId(bytes(group.Id)) && !@select(@select(ghost(kvhas), ref(chain.groups)), bytes(group.Id))
+//@   requires [link] bytes(group.Header.PreGroup) == @select(@gids, chain.count - 1)
+//@   ensures [wf.head]     result == nil ==> @gcHead(@select(ghost(kv), ref(chain.groups)), @select(ghost(kvhas), ref(chain.groups)), @store(@gids, old(chain.count), old(bytes(group.Id))), chain.count, bytes("gcurrent"), bytes("gcount"))
+//@   ensures [wf.index]    result == nil ==> @gcIdx(@select(ghost(kv), ref(chain.groups)), @select(ghost(kvhas), ref(chain.groups)), @store(@gids, old(chain.count), old(bytes(group.Id))), chain.count)
+//@   ensures [wf.above]    result == nil ==> @gcAbove(@select(ghost(kvhas), ref(chain.groups)), chain.count)
+//@   ensures [wf.distinct] result == nil ==> @gcDistinct(@store(@gids, old(chain.count), old(bytes(group.Id))), chain.count)
+//@   ensures [count] result == nil ==> chain.count == old(chain.count) + 1 && chain.lastGroup == group && group.GroupHeight == old(chain.count)
+//@   ensures [fail] result != nil ==> ghost(kv) == old(ghost(kv)) && ghost(kvhas) == old(ghost(kvhas)) && chain.count == old(chain.count)
+//@   modifies chain.count, chain.lastGroup, group.GroupHeight, ghost(kv), ghost(kvhas)
+
+//@ func groupChain.remove
+//@   property C19
+//@   option maypanic
+//@   requires chain != nil && typeid(chain.groups) != 0
+//@   requires [wf] @gcWF(@select(ghost(kv), ref(chain.groups)), @select(ghost(kvhas), ref(chain.groups)), @gids, chain.count, bytes("gcurrent"), bytes("gcount"))
+//@   requires [last] group != nil ==> group.Header != nil && chain.count >= 2 && bytes(group.Id) == @select(@gids, chain.count - 1) && bytes(group.Header.PreGroup) == @select(@gids, chain.count - 2)
+//@   ensures [count]       result && group != nil ==> chain.count == old(chain.count) - 1
+//@   ensures [wf.head]     result && group != nil ==> @gcHead(@select(ghost(kv), ref(chain.groups)), @select(ghost(kvhas), ref(chain.groups)), @gids, chain.count, bytes("gcurrent"), bytes("gcount"))
+//@   ensures [wf.index]    result && group != nil ==> @gcIdx(@select(ghost(kv), ref(chain.groups)), @select(ghost(kvhas), ref(chain.groups)), @gids, chain.count)
+//@   ensures [wf.above]    result && group != nil ==> @gcAbove(@select(ghost(kvhas), ref(chain.groups)), chain.count)
+//@   ensures [mem] result && group != nil ==> chain.lastGroup != nil && bytes(chain.lastGroup.Id) == @select(@gids, chain.count - 1)
+//@   modifies chain.count, chain.lastGroup, ghost(kv), ghost(kvhas)
+
+//@ func groupChain.getGroupByHeight
+//@   property C19
+//@   requires chain != nil && typeid(chain.groups) != 0
+//@   requires [wf] @gcWF(@select(ghost(kv), ref(chain.groups)), @select(ghost(kvhas), ref(chain.groups)), @gids, chain.count, bytes("gcurrent"), bytes("gcount"))
+//@   ensures [index] height < chain.count ==> result != nil && bytes(result.Id) == @decId(@select(@select(ghost(kv), ref(chain.groups)), @select(@gids, height))) && result.GroupHeight == height
+//@   ensures [above] height >= chain.count ==> result == nil
+//@   modifies nothing
